@@ -209,6 +209,9 @@ def install():
     sympy.sqrt = sqrt_sympy
     O.hybrids_coef = {k: {b: (algebraic(c) if k not in O.basis_orbital_list else c) for b, c in v.items()} for k, v in O.hybrids_coef.items()}
     O.get_orbitals.cache_clear()
+    if not _POINT:               # symbolic point r of the defining relation
+        _POINT.extend(SymC.var(n) for n in ("rx", "ry", "rz"))
+        _SYM.update(zip(("rx", "ry", "rz"), _POINT))
     return O.get_orbitals()
 
 
@@ -265,6 +268,7 @@ def eye(n):
 
 
 _nsym = itertools.count()
+_POINT = []
 
 
 def as_sympy(R):
@@ -305,15 +309,8 @@ def parity(shell):
     return M @ D @ M.T
 
 
-_POINT = []
-
-
 def defining_relation(rec, shell, R, A):
     """docstring of rot_orb_basis: phi_j(R^-1 r) = sum_i phi_i(r) A_ij, with the package's own orbital polynomials at a symbolic point r"""
-    if not _POINT:
-        _POINT.extend(SymC.var(n) for n in ("rx", "ry", "rz"))
-        for v, n in zip(_POINT, ("rx", "ry", "rz")):
-            _SYM[n] = v
     r = sarr(list(_POINT))
     Rinv = LinalgProxy(np.linalg).inv(np.asarray(R, dtype=object)) if is_sym(R) else lift(np.linalg.inv(R))
     rp = as_sympy(Rinv @ r)
